@@ -248,6 +248,47 @@ def _loc_chunk(acc, store_name):
                               {'got': len(got), 'expected': len(want)}, case={'kind': 'loc', 'store': store_name})
 
 
+def _loc_order_chunk(acc, orders):
+    """The text store is filled by several add() calls in every order (versions arriving late, a single late
+    translation of an older version, the same batch twice): the answers depend on the stored set only."""
+    from sdc11073.xml_types.pm_types import LocalizedText
+    def batch(version, langs=('en', 'de'), refs=('a', 'b')):
+        return [LocalizedText(f'{r}{version}{lg}', lang=lg, ref=r, version=version) for r in refs for lg in langs]
+    parts = {'v0': batch(0), 'v1': batch(1), 'v2': batch(2), 'late-v1-fr': batch(1, langs=('fr',), refs=('a',)),
+             'late-v0-single': batch(0, langs=('en',), refs=('c',))}
+    for order in orders:
+        acc.trace()
+        acc.evals()
+        acc.transition(len(order))
+        w = world.World()
+        p = w.mk_provider()
+        stored = []
+        for name in order:
+            p.localization_storage.add(*parts[name])
+            stored += parts[name]
+        c = w.mk_consumer(p)
+        client = c.client('LocalizationService')
+        latest = max(t.Version for t in stored)
+        tag = '>'.join(order)
+        acc.state(h64(('order', tag)))
+        got = sorted(t.text for t in client.get_localized_texts().result.Text)
+        want = sorted(t.text for t in stored if t.Version == latest)
+        if got != want:
+            acc.violation(f'GetLocalizedText/unconstrained-not-all-latest/add-order/{tag}', {'got': got[:6], 'expected': want[:6]},
+                          case={'kind': 'loc-order', 'order': list(order)})
+        for ver in (0, 1, 2):
+            got = sorted(t.text for t in client.get_localized_texts(version=ver).result.Text)
+            want = sorted(t.text for t in stored if t.Version == ver)
+            if got != want:
+                acc.violation(f'GetLocalizedText/version-query-differs/add-order/{tag}/v{ver}', {'got': got[:6], 'expected': want[:6]},
+                              case={'kind': 'loc-order', 'order': list(order)})
+        langs = sorted(client.get_supported_languages().result.Lang)
+        if langs != sorted({t.Lang for t in stored}):
+            acc.violation(f'GetSupportedLanguages/differs/add-order/{tag}', {'got': langs}, case={'kind': 'loc-order', 'order': list(order)})
+        acc.nontrivial(h64(('order', tag)))
+        w.close()
+
+
 def run(ctx):
     maxlen = 2 if ctx.quick else 3
     ctx.rule = ('GetMdState / GetContextStates: all handle lists of length <= %d over a pool of 9-11 handles (two context-state handles, '
@@ -264,6 +305,12 @@ def run(ctx):
                 jobs.append((f'{name}/two_mds={two}/ctx_in_getmdib={with_ctx}', tuple(pre), two, with_ctx, maxlen))
     ctx.pmap(_query_chunk, ctx.rotate(jobs), chunksize=1)
     ctx.pmap(_loc_chunk, list(text_stores()), chunksize=1)
+    names = ['v0', 'v1', 'v2', 'late-v1-fr', 'late-v0-single']
+    orders = [o for k in ((2, 3) if ctx.quick else (2, 3, 4, 5)) for o in itertools.permutations(names, k)]
+    orders += [('v1', 'v2', 'v1'), ('v2', 'v2', 'v1')]
+    n = max(1, len(orders) // 32)
+    ctx.pmap(_loc_order_chunk, [orders[i:i + n] for i in range(0, len(orders), n)], chunksize=1)
+    ctx.note('text_store_add_orders', len(orders))
     ctx.note('bounds', {'mdib_configs': len(jobs), 'max_handle_list_length': maxlen, 'text_stores': len(text_stores())})
     ctx.assumptions.append('GetMdState selects among single states plus context states only if contextstates_in_getmdib is set '
                            '(the provider option that defines whether GetMdib/GetMdState carry context states)')
@@ -275,6 +322,8 @@ def replay(ctx, case):
     if case['kind'] == 'query':
         a = case['arg']
         _query_chunk(ctx, (a[0], tuple(a[1]), a[2], a[3], 2))
+    elif case['kind'] == 'loc-order':
+        _loc_order_chunk(ctx, [tuple(case['order'])])
     else:
         _loc_chunk(ctx, case['store'])
     return {'violations': sorted(ctx.violations)[:10]}
